@@ -70,6 +70,76 @@ def _tags(res) -> List[str]:
     return list(res.tags) if res is not None else []
 
 
+_slot_cache: Dict[int, tuple] = {}
+
+
+def effective_ma_slots(ctx: Ctx) -> Dict[str, str]:
+    """MA_SLOTS closed under 'the slot's value is handed on': an MA parameter passed to a package function or class makes
+    the receiving parameter a slot; stored into `self.<attr>` by a constructor it makes that attribute a slot (of the
+    class and its subclasses).  This is what lets a combinator be a closure or a small callable class alike."""
+    hit = _slot_cache.get(id(ctx))
+    if hit is not None and hit[0] is ctx:
+        return hit[1]
+    slots = dict(MA_SLOTS)
+    by_q: Dict[str, List[FuncInfo]] = {}
+    for f in ctx.p.all_functions():
+        by_q.setdefault(f.qualname, []).append(f)
+    changed = True
+    rounds = 0
+    while changed and rounds < 6:
+        changed = False
+        rounds += 1
+        for tag in list(slots):
+            if not tag.startswith("param:"):
+                continue
+            q, pname = tag[6:].rsplit(".", 1)
+            for fn in by_q.get(q, []):
+                scopes = [fn] + [g for g in fn.module.all_functions if g.parent is fn]
+                for sc in scopes:
+                    if sc is not fn and pname in sc.params:
+                        continue  # shadowed
+                    for n in ast.walk(sc.node) if sc is fn else own_nodes(sc.node):
+                        # handed on as an argument
+                        if isinstance(n, ast.Call):
+                            passed = [(i, None) for i, a in enumerate(n.args) if isinstance(a, ast.Name) and a.id == pname] + \
+                                     [(None, kw.arg) for kw in n.keywords if kw.arg and isinstance(kw.value, ast.Name) and kw.value.id == pname]
+                            if not passed:
+                                continue
+                            try:
+                                res = ctx.r.resolve_in(n, sc)
+                            except Exception:
+                                continue
+                            if res.how != "typed":
+                                continue
+                            for t in res.targets:
+                                if isinstance(t.node, ast.Lambda):
+                                    continue
+                                names = list(t.params)
+                                is_method = t.cls is not None and t.parent is None and "staticmethod" not in t.decorators
+                                if is_method and names and names[0] in ("self", "cls"):
+                                    names = names[1:]
+                                for i, kwn in passed:
+                                    tp = kwn if kwn in t.params else (names[i] if i is not None and i < len(names) else None)
+                                    if tp is None:
+                                        continue
+                                    nt = f"param:{t.qualname}.{tp}"
+                                    if nt not in slots:
+                                        slots[nt] = f"receives {tag} ({slots[tag]})"
+                                        changed = True
+                        # kept in a field by a method (constructor)
+                        if isinstance(n, ast.Assign) and isinstance(n.value, ast.Name) and n.value.id == pname and sc is fn and fn.cls is not None:
+                            for tg in n.targets:
+                                if isinstance(tg, ast.Attribute) and isinstance(tg.value, ast.Name) and tg.value.id == "self":
+                                    for c in [fn.cls] + list(ctx.p.subclasses(fn.cls)):
+                                        nt = f"attr:{c.name}.{tg.attr}"
+                                        if nt not in slots:
+                                            slots[nt] = f"holds {tag} ({slots[tag]})"
+                                            changed = True
+    _slot_cache.clear()
+    _slot_cache[id(ctx)] = (ctx, slots)
+    return slots
+
+
 class AwaitFlow:
     def __init__(self, ctx: Ctx, sync_world_classes=("SyncEngine",)):
         self.ctx = ctx
@@ -84,6 +154,7 @@ class AwaitFlow:
         self.legal_uses = 0
         self.analysed: List[str] = []
         self.sync_world_consumptions: List[Tuple[FuncInfo, ast.AST, str]] = []
+        self.ma_slots = effective_ma_slots(ctx)
         self._summaries()
 
     # ------------------------------------------------------------------ sources
@@ -99,8 +170,8 @@ class AwaitFlow:
             if t.key in self.returns_ma:
                 return f"{t.qualname} may return an un-awaited awaitable"
         for tag in res.tags:
-            if tag in MA_SLOTS:
-                return f"callback slot {tag} ({MA_SLOTS[tag]})"
+            if tag in self.ma_slots:
+                return f"callback slot {tag} ({self.ma_slots[tag]})"
         return None
 
     def _raw_source(self, call: ast.Call, fn: FuncInfo) -> Optional[str]:
@@ -109,7 +180,7 @@ class AwaitFlow:
             if t.is_async or t.key in self.returns_ma:
                 return t.qualname
         for tag in res.tags:
-            if tag in MA_SLOTS:
+            if tag in self.ma_slots:
                 return tag
         return None
 
